@@ -166,6 +166,16 @@ CHECKS = {
         "exhaustive_quick": False,
         "assumptions": [],
     },
+    "C18": {
+        "level": EXPL,
+        "technique": "runtime monitoring: counters read through the documented applyToAllKernels/Reduce merge compared with the model's count of elementary interactions; bit-exact comparison of wrapped vs unwrapped kernel; scheduler shim for per-worker copies; TSan build",
+        "claim": "On every explored tree, executor (sequential; OpenMP under all shim schedules with 1..16 workers) and merge order, the merged counters equalled the model's number of leaves, parent-child links, transfer pairs and particle pairs, doubled after a second execute, and the wrapped kernel's results were bit-identical to the unwrapped kernel's; the timer wrapper left results unchanged.",
+        "note": "Elapsed times of the timer wrapper are never judged. Counter + target/source executor is outside the property's quantifier (it does not compile, DESIGN.md section 7 D9).",
+        "jobs": [{"bin": "h_fmm", "mode": "c18"}, {"bin": "h_sched", "mode": "c18"}, {"bin": "h_sched_tsan", "mode": "c18"}],
+        "rule": "cases = random trees (Dim 1..4 sequential, Dim 1..3 OpenMP; Morton and periodic Morton) with counter<P-poly>, counter<TbfTestKernel> or timer<P-poly>; per-worker counters merged in every permutation (<= 5 workers) or 6 random ones; OpenMP runs under the C03 schedule sets. non-trivial = at least one transfer or particle pair expected; distinct = configuration signature.",
+        "require_events": ["counter-values-checked", "merge-orders", "worker-copies-merged", "schedules-executed", "timer-merges"],
+        "assumptions": [],
+    },
 }
 SPECIAL = {}
 NOT_CLAIMED = {}
